@@ -26,16 +26,18 @@ ASSUMPTIONS = [
     "quick tier caps shapes with > 8 cells at the tables with <= 2 or >= n-2 true cells plus 256 tables in lexicographic stride (reported as cap)",
 ]
 BUDGET_S = {"quick": 1200, "thorough": 5400}
+# names are chosen so that the canonical order (restricted states in declaration order, then
+# restricted choices) differs from the alphabetical order of the names
 SHAPES = {
-    "a2|x2": (("a",), (2,), ("x",), (2,)),
-    "a3|x2": (("a",), (3,), ("x",), (2,)),
-    "a2,b2|x2": (("a", "b"), (2, 2), ("x",), (2,)),
-    "a2|x2,y2": (("a",), (2,), ("x", "y"), (2, 2)),
-    "a2,b3|x2": (("a", "b"), (2, 3), ("x",), (2,)),
-    "a2|x3,y2": (("a",), (2,), ("x", "y"), (3, 2)),
-    "a2,b2|x2,y2": (("a", "b"), (2, 2), ("x", "y"), (2, 2)),
-    "a2|": (("a",), (2,), (), ()),
-    "a2,b3|": (("a", "b"), (2, 3), (), ()),
+    "q2|m2": (("q",), (2,), ("m",), (2,)),
+    "q3|m2": (("q",), (3,), ("m",), (2,)),
+    "q2,b2|m2": (("q", "b"), (2, 2), ("m",), (2,)),
+    "q2|m2,c2": (("q",), (2,), ("m", "c"), (2, 2)),
+    "q2,b3|m2": (("q", "b"), (2, 3), ("m",), (2,)),
+    "q2|m3,c2": (("q",), (2,), ("m", "c"), (3, 2)),
+    "q2,b2|m2,c2": (("q", "b"), (2, 2), ("m", "c"), (2, 2)),
+    "q2|": (("q",), (2,), (), ()),
+    "q2,b3|": (("q", "b"), (2, 3), (), ()),
 }
 BASE_CFG = {"split": "one", "extras": True, "last": False, "jit": False}
 BLOCK = 64
@@ -46,7 +48,7 @@ def BOUND(tier):
 
 
 def CAPS(tier):
-    caps = ["16-cell shape a2,b2|x2,y2: tables with <= 2 or >= 14 true cells plus 256 tables in lexicographic stride (of 65536)"]
+    caps = ["16-cell shape q2,b2|m2,c2: tables with <= 2 or >= 14 true cells plus 256 tables in lexicographic stride (of 65536)"]
     if tier == "quick":
         caps.append("12-cell shapes: tables with <= 2 or >= 10 true cells plus 256 tables in stride (of 4096); complete in the thorough tier for the base configuration")
     else:
@@ -90,11 +92,17 @@ def cases(tier, seed):
                 blk = tabs[b : b + BLOCK]
                 cid = f"{sname}-split={cfg['split']}-extras={int(cfg['extras'])}-last={int(cfg['last'])}-jit={int(cfg['jit'])}-tables{blk[0]}..{blk[-1]}"
                 out.append({"id": cid, "shape": sname, "cfg": cfg, "tables": blk, "capped": capped})
+    # pipeline clause: the spaces that get_lcm_function actually uses for every period
+    from mc import e1, family
+
+    for fv, dev in e1.family_members(1 if tier == "quick" else 2, None if tier == "quick" else {k: family.FEATURES[k] for k in ["filt", "e", "h", "T", "g", "order"]})[0]:
+        if fv["filt"] != "none" or fv["h"] == "restricted":
+            out.append({"id": "pipeline-" + e1.fv_id(fv), "kind": "pipeline", "fv": fv, "cfg": dict(BASE_CFG), "tables": [], "capped": False, "shape": "-"})
     return out
 
 
 def cost(case):
-    return len(case["tables"])
+    return max(len(case["tables"]), 8)
 
 
 def case_rank(case):
@@ -127,7 +135,7 @@ def build_model(sname, cfg, tables):
             states["g"] = D(2)
     if cfg["extras"]:
         choices["e"] = D(3)
-        choices["c"] = LinspaceGrid(start=0.1, stop=1, n_points=4)
+        choices["z"] = LinspaceGrid(start=0.1, stop=1, n_points=4)
     for n, k in zip(cn, cs):
         choices[n] = D(k)
     allv = list(states) + list(choices)
@@ -160,7 +168,72 @@ def build_model(sname, cfg, tables):
     return Model(n_periods=max(len(tables), 1), functions=functions, choices=choices, states=states), T
 
 
+def _run_pipeline(case):
+    """The per-period spaces held by the function returned by get_lcm_function(jit=False)."""
+    from lcm.entry_point import get_lcm_function
+    from mc import e1, refmodel
+
+    b = e1.Built(case["fv"], 0)
+    r = refmodel.Ref(b.model, b.params("default"))
+    viols, cnt, dig = [], 0, []
+    try:
+        solve, _ = get_lcm_function(b.model, targets="solve", debug_mode=False, jit=False)
+        spaces = solve.keywords["state_choice_spaces"]
+        indexers = solve.keywords["state_indexers"]
+    except Exception as e:
+        return outcome(status="violation", violations=[violation("space", "get_lcm_function", "EXC:" + type(e).__name__, str(e)[:300])], digest="exc")
+    rnames = [v for v in r.states if v in r.restricted] + [v for v in r.choices if v in r.restricted]
+    rstates = [v for v in r.states if v in r.restricted]
+    env = r.env_full()
+    for t in range(r.T):
+        shape_all = tuple(len(r.grids[v]) for v in r.states + r.choices)
+        filt = np.ones(shape_all, bool)
+        memo = {}
+        for f in r.filters:
+            filt = filt & np.broadcast_to(r.ev(f, env, t, memo).astype(bool), shape_all)
+        # filters only see restricted variables: project the mask onto them (canonical order)
+        allv = r.states + r.choices
+        other = tuple(i for i, v in enumerate(allv) if v not in rnames)
+        m = filt.all(axis=other) if other else filt
+        keep = [v for v in allv if v in rnames]
+        m = np.transpose(m, [keep.index(v) for v in rnames])
+        combos = [idx for idx in itertools.product(*[range(k) for k in m.shape]) if m[idx]]
+        sv = {k: np.asarray(v) for k, v in spaces[t].sparse_vars.items()}
+        cnt += 1
+        dig.append([sv.get(n) for n in rnames])
+        problems = []
+        if list(sv) != rnames:
+            problems.append(f"stored restricted variables {list(sv)} != canonical order {rnames}")
+        else:
+            for j, n in enumerate(rnames):
+                exp = np.array([r.grids[n][c[j]] for c in combos])
+                if sv[n].shape != exp.shape or not np.array_equal(sv[n], exp):
+                    problems.append(f"period {t}: stored values of {n}: {sv[n].tolist()} expected {exp.tolist()}")
+                    break
+        # the indexer handed to period t describes V_{t+1} (empty for the last period)
+        if t < r.T - 1 and rstates:
+            ns_ = len(rstates)
+            shape_all1 = shape_all
+            filt1 = np.ones(shape_all1, bool)
+            memo = {}
+            for f in r.filters:
+                filt1 = filt1 & np.broadcast_to(r.ev(f, env, t + 1, memo).astype(bool), shape_all1)
+            m1 = filt1.all(axis=other) if other else filt1
+            m1 = np.transpose(m1, [keep.index(v) for v in rnames])
+            ok1 = m1.reshape(m1.shape[:ns_] + (-1,)).any(axis=-1)
+            ranks = np.full(ok1.shape, -1)
+            ranks[ok1] = np.arange(int(ok1.sum()))
+            got = indexers[t].get("state_indexer") if isinstance(indexers[t], dict) else None
+            if got is None or not np.array_equal(np.asarray(got), ranks):
+                problems.append(f"period {t}: state indexer for the next-period values {None if got is None else np.asarray(got).tolist()} expected {ranks.tolist()}")
+        if problems and not viols:
+            viols.append(violation("space", "pipeline", "VALUE", f"model {case['id']}: " + "; ".join(problems[:2])))
+    return outcome(status="violation" if viols else "ok", violations=viols, states=cnt, transitions=cnt, traces=cnt, digest=digest(dig, case["id"]))
+
+
 def run_case(case):
+    if case.get("kind") == "pipeline":
+        return _run_pipeline(case)
     from lcm.input_processing import process_model
     from lcm.state_space import create_state_choice_space
 
